@@ -632,4 +632,38 @@ theorem C06_group_concat_truthiness_guard_false :
   have := h (some []) [['a'], ['b']]
   revert this; decide
 
+/-! ### JSON path text -/
+
+/-- **A key segment is written from that key alone**: negative indexes elsewhere in the path (which switch SQLite's JSON1 paths
+    to `[#-n]`) never touch the text of a program-supplied key, whatever path syntax the key contains. -/
+theorem C06_json_path_key_segment (hashed : Bool) (s : Str) :
+    renderPathElem hashed (.key s) = renderPathElem false (.key s) := by
+  cases hashed <;> rfl
+
+/-- the path text is the concatenation of the element segments (no rewriting of the assembled text) -/
+theorem C06_json_path_append (hashed : Bool) (a b : List PathElem) :
+    renderPathElems hashed (a ++ b) = renderPathElems hashed a ++ renderPathElems hashed b := by
+  induction a with
+  | nil => rfl
+  | cons e a ih => simp [renderPathElems, ih]
+
+/-- **A quoted key reads back as exactly the key supplied**, in front of any continuation of the path - for every key
+    without a backslash (`[-`, `[#`, `"`, `.`, `$`, `[0]`, `#-1` … included). -/
+theorem C06_json_path_quoted_key_roundtrip (s rest : Str) (h : '\\' ∉ s) :
+    lexPathKey (renderQuotedKey s ++ rest) = some (s, rest) := by
+  have body : lexPathKeyBody (replaceChar '\x22' ['\\', '\x22'] s ++ '\x22' :: rest) = some (s, rest) := by
+    induction s with
+    | nil => simp only [replaceChar, List.nil_append]; unfold lexPathKeyBody; simp
+    | cons c s ih =>
+      simp only [List.mem_cons, not_or] at h
+      have ih' := ih h.2
+      by_cases hc : c = '\x22'
+      · subst hc; simp [replaceChar, lexPathKeyBody, ih']
+      · have hb : c ≠ '\\' := fun e => h.1 e.symm
+        simp only [replaceChar, hc, if_false, List.cons_append]
+        unfold lexPathKeyBody; simp [hc, hb, ih']
+  simp [renderQuotedKey, lexPathKey, body]
+
+example : renderPathElem true (.key ['a', '[', '-', '1', ']']) = ['.', '\x22', 'a', '[', '-', '1', ']', '\x22'] := by decide
+
 end PonyVerif.Props.C06
